@@ -217,7 +217,7 @@ func init() {
 			res := g.libResults(callee, st)
 			// a successful decode has consumed two digits per byte; the lower-case rendering of the result is the input
 			// only for lower-case input, so nothing is said about hex(result)
-			g.assume(st, fmt.Sprintf("(=> (= %s 0) (= (blen %s) (* 2 (blen %s))))", res[1].T, a.T, res[0].T))
+			g.assume(st, fmt.Sprintf("(=> (= %s 0) (and (= (blen %s) (* 2 (blen %s))) (= %s (unhex %s))))", res[1].T, a.T, res[0].T, res[0].T, a.T))
 			g.assume(st, fmt.Sprintf("(=> (not (= %s 0)) (= (blen %s) 0))", res[1].T, res[0].T))
 			return res
 		},
